@@ -1368,10 +1368,19 @@ func lemmaSliceConcat(seq Sequence, c int) Sequence {
 //@   loop 1: decreases len(vv) - idx1
 
 // Splitting a selector at the first '/' that is not escaped: indices stay in range, the scan
-// terminates.
+// terminates, and the cut is exactly the first separating slash.  A slash separates unless the
+// byte before it is a backslash or a slash that was itself passed over (sepAt): that is what
+// the escape flag of the scan means at every position, stated as the loop invariant.
+//@ spec macro sepAt(s string, k int) bool = s[k] == '/' && (k == 0 || (s[k-1] != '\\' && s[k-1] != '/'))
 //@ func shiftSelector(s string) (head string, tail string)
 //@   prop C19 C07
+//@   ensures prefix: len(head) <= len(s) && (forall k in 0..len(head): head[k] == s[k])
+//@   ensures first: forall k in 0..len(head): !sepAt(s, k)
+//@   ensures whole: len(head) == len(s) ==> len(tail) == 0
+//@   ensures split: len(head) < len(s) ==> sepAt(s, len(head)) && len(tail) == len(s) - len(head) - 1 && (forall k in 0..len(tail): tail[k] == s[len(head) + 1 + k])
 //@   loop 1: invariant 0 <= i && i <= len(s)
+//@   loop 1: invariant esc <==> (i > 0 && (s[i-1] == '\\' || s[i-1] == '/'))
+//@   loop 1: invariant forall k in 0..i: !sepAt(s, k)
 //@   loop 1: decreases len(s) - i
 
 // ---------------------------------------------------------------------------
